@@ -2,7 +2,7 @@
    the interface laws below (the logical B-tree does: ScanTreeP.v, SpliceP.v).
    retain_in_bounds: `scan_retain_in` = SortedMap.retain_in on the contents. *)
 From Coq Require Import List NArith Bool Sorted Lia Arith.
-From RV Require Import Base.SortedMap Base.SortedMapP Btree.Tree Btree.Read Btree.ReadP Btree.Scan Btree.ScanTreeP Btree.SpliceP.
+From RV Require Import Base.SortedMap Base.SortedMapP Btree.Tree Btree.Read Btree.ReadP Btree.Scan Btree.RangeMut Btree.ScanTreeP Btree.SpliceP.
 Import ListNotations.
 
 Section RemoveIndexes.
@@ -568,9 +568,9 @@ Section ScanP.
     - rewrite (skipn_nth_cons _ _ _ En). reflexivity.
   Qed.
 
-  Lemma remove_ok t c j i e : wf t c -> c_pos c = Some (j, i) -> nth_error (leaf_at t j) i = Some e ->
-    wf t (cursor_remove c DNext false) /\ VP t (cursor_remove c DNext false) = VP t c /\
-    Bs t c = e :: Bs t (cursor_remove c DNext false).
+  Lemma remove_ok t c j i e (df : bool) : wf t c -> c_pos c = Some (j, i) -> nth_error (leaf_at t j) i = Some e ->
+    wf t (cursor_remove c DNext df) /\ VP t (cursor_remove c DNext df) = VP t c /\
+    Bs t c = e :: Bs t (cursor_remove c DNext df).
   Proof.
     intros Hwf Epos En. unfold cursor_remove. rewrite Epos. cbn [move_once entry_index].
     unfold wf, VP, Bs in *. rewrite Epos in *. cbn [c_pos c_removed c_run].
@@ -717,7 +717,7 @@ Section ScanP.
     destruct (entry_exists t1 c1 (E5 eq_refl)) as (j & i & e & Epos & En & Ecur). rewrite Ecur.
     destruct e as [k v].
     destruct (move_ok t1 c1 j i (k, v) E2 Epos En) as (M1 & M2 & M3).
-    destruct (remove_ok t1 c1 j i (k, v) E2 Epos En) as (R1 & R2 & R3).
+    destruct (remove_ok t1 c1 j i (k, v) false E2 Epos En) as (R1 & R2 & R3).
     assert (Hsb : sorted (Bs t1 c1)) by (rewrite Hm in Hs; now apply (sorted_app_inv cmp) in Hs).
     rewrite before_upper_eq. destruct (below_upper cmp hi k) eqn:Eup.
     - assert (Hrange : in_range cmp lo hi k = true).
@@ -787,4 +787,289 @@ Section ScanP.
     - rewrite Hm, app_length in Hfuel. lia.
   Qed.
   End Retain.
+
+  (* ---------------------------------------------------------------- extract_if consumed from the FRONT *)
+  (* BtreeExtractIf over RangeMut (RangeMut.v) when only next() is called: the front end is live, the back end stays
+     parked at the upper bound (entry_in_range = below_upper).  The double-ended protocol (parking the front,
+     activating the back, pending batches) is NOT covered by this theorem. *)
+  Section ExtractForward.
+  Variable entry_eqb : K * V -> K * V -> bool.
+  Variables (lo hi : bound K) (p : K -> V -> bool).
+  Notation rstate := (@RangeMut.rstate K V T).
+  Notation xstate := (@RangeMut.xstate K V T).
+  Notation range_peek := (RangeMut.range_peek cmp entry_eqb leaves seek flush splice has_parent more_children underfilling packs).
+  Notation range_advance := (RangeMut.range_advance cmp entry_eqb leaves seek flush splice has_parent more_children underfilling packs).
+  Notation range_remove := (RangeMut.range_remove cmp entry_eqb leaves seek flush splice has_parent more_children underfilling packs).
+  Notation range_close := (RangeMut.range_close cmp entry_eqb leaves seek flush splice has_parent more_children underfilling packs).
+  Notation extract_step := (RangeMut.extract_step cmp entry_eqb leaves seek flush splice has_parent more_children underfilling packs).
+  Notation extract_next := (RangeMut.extract_next cmp entry_eqb leaves seek flush splice has_parent more_children underfilling packs).
+  Notation extract_close := (RangeMut.extract_close cmp entry_eqb leaves seek flush splice has_parent more_children underfilling packs).
+  Notation extract_tree := (RangeMut.extract_tree cmp entry_eqb leaves seek flush splice has_parent more_children underfilling packs).
+  Notation settle' := (RangeMut.settle' cmp entry_eqb leaves seek flush splice has_parent more_children underfilling packs).
+
+  (* the live front end with its window, against the specification iterator state *)
+  Definition fwd_live (t : T) (c : cstate) (st : @ext_state K V) : Prop :=
+    ok t /\ wf t c /\ VP t c = x_pre st /\ Bs t c = x_mid st ++ x_post st /\
+    Forall (fun e => below_upper cmp hi (fst e) = true) (x_mid st) /\
+    match x_post st with e :: _ => below_upper cmp hi (fst e) = false | [] => True end.
+
+  Definition live_state (t : T) (c : cstate) (s : option direction) : rstate :=
+    RangeMut.mk_rstate t (ELive c) (EParked hi) s.
+
+  Lemma entry_in_range_hi t c s k : RangeMut.entry_in_range cmp (live_state t c s) DNext k = below_upper cmp hi k.
+  Proof. unfold RangeMut.entry_in_range, live_state. cbn. destruct hi; reflexivity. Qed.
+
+  (* settle on a live front end *)
+  Lemma settle_live efuel t c st : 2 <= efuel -> fwd_live t c st ->
+    let '(b, r) := settle' efuel (live_state t c None) DNext in
+    exists t1 c1, fwd_live t1 c1 st /\
+      ((b = true /\ r = live_state t1 c1 (Some DNext) /\ exists e rest, x_mid st = e :: rest /\ current_entry leaves t1 c1 DNext = Some e /\ entry_at t1 c1) \/
+       (b = false /\ r = live_state t1 c1 None /\ x_mid st = [])).
+  Proof.
+    intros Hef (Hok & Hwf & HVP & HBs & Hmid & Hpost).
+    unfold RangeMut.settle', live_state. cbn [rg_settled RangeMut.activate RangeMut.end_of rg_front rg_tree rg_back RangeMut.set_end RangeMut.set_tree].
+    pose proof (ensure_ok efuel t c Hef Hok Hwf) as He.
+    destruct (ensure_has_entry efuel t c DNext) as [[b t1] c1]. destruct He as (E1 & E2 & E3 & E4 & E5 & E6).
+    assert (Hl : fwd_live t1 c1 st).
+    { refine (conj E1 (conj E2 (conj _ (conj _ (conj Hmid Hpost))))); [rewrite E3; exact HVP|rewrite E4; exact HBs]. }
+    destruct b.
+    - destruct (entry_exists t1 c1 (E5 eq_refl)) as (j & i & e & Epos & En & Ecur). rewrite Ecur.
+      fold (live_state t1 c1 None). rewrite entry_in_range_hi.
+      (* e heads the unscanned part *)
+      destruct (move_ok t1 c1 j i e E2 Epos En) as (_ & _ & M3). rewrite E4, HBs in M3.
+      destruct (x_mid st) as [|e' rest] eqn:Em.
+      + cbn [app] in M3. destruct (x_post st) as [|q post']; [discriminate|]. inversion M3; subst q.
+        rewrite Hpost. exists t1, c1. split; [exact Hl|]. right. auto.
+      + cbn [app] in M3. inversion M3; subst e'. inversion Hmid as [|? ? Hb _]; subst. rewrite Hb.
+        exists t1, c1. split; [exact Hl|]. left. split; [reflexivity|]. split; [reflexivity|].
+        exists e, rest. split; [reflexivity|]. split; [exact Ecur|apply E5; reflexivity].
+    - exists t1, c1. split; [exact Hl|]. right. split; [reflexivity|]. split; [reflexivity|].
+      specialize (E6 eq_refl). rewrite HBs in E6. apply app_eq_nil in E6. tauto.
+  Qed.
+
+  Lemma settled_remove efuel t c : range_remove efuel (live_state t c (Some DNext)) DNext =
+    (current_entry leaves t c DNext, live_state t (cursor_remove c DNext true) None).
+  Proof. reflexivity. Qed.
+
+  Lemma settled_advance efuel t c : range_advance efuel (live_state t c (Some DNext)) DNext = live_state t (cursor_move c DNext) None.
+  Proof. reflexivity. Qed.
+
+  Lemma settled_peek efuel t c : range_peek efuel (live_state t c (Some DNext)) DNext =
+    (current_entry leaves t c DNext, live_state t c (Some DNext)).
+  Proof. reflexivity. Qed.
+
+  Lemma finish_norun t c : c_run (snd (finish_pending t c)) = None.
+  Proof.
+    assert (H : forall t0 c0, c_run (snd (splice_open t0 c0)) = None).
+    { intros t0 c0. unfold Scan.splice_open. destruct (c_run c0) as [[d r]|] eqn:Er; cbn; auto. }
+    unfold Scan.finish_pending.
+    match goal with |- c_run (snd (let '(t1, c1) := ?X in _)) = None => destruct X as [t1 c1] end.
+    apply H.
+  Qed.
+
+  (* closing (or dropping) the iterator with a live front end applies everything pending *)
+  Lemma close_live_tree t c s :
+    rg_tree (x_range (extract_close (RangeMut.mk_xstate (live_state t c s) false))) = fst (finish_pending t c).
+  Proof.
+    unfold RangeMut.extract_close. cbn [x_closed x_range]. unfold RangeMut.range_close, live_state.
+    unfold RangeMut.flush_end at 2. cbn [RangeMut.end_of rg_front rg_tree].
+    pose proof (finish_norun t c) as Hn. destruct (finish_pending t c) as [t' c']. cbn [snd fst] in *.
+    cbn [RangeMut.set_end RangeMut.set_tree rg_tree rg_front rg_back rg_settled].
+    unfold RangeMut.park. cbn [RangeMut.set_settled RangeMut.end_of rg_front rg_tree rg_back rg_settled].
+    unfold Scan.splice_open. rewrite Hn.
+    cbn [RangeMut.set_end RangeMut.set_tree rg_tree rg_front rg_back rg_settled].
+    unfold RangeMut.flush_end.
+    cbn [RangeMut.set_settled RangeMut.set_end RangeMut.set_tree RangeMut.end_of rg_tree rg_front rg_back rg_settled].
+    reflexivity.
+  Qed.
+
+  Lemma close_live t c s st : fwd_live t c st ->
+    let x := extract_close (RangeMut.mk_xstate (live_state t c s) false) in
+    x_closed x = true /\ ok (rg_tree (x_range x)) /\ contents (rg_tree (x_range x)) = ext_finish st.
+  Proof.
+    intros (Hok & Hwf & HVP & HBs & _ & _). cbn zeta. rewrite close_live_tree.
+    split; [reflexivity|]. pose proof (finish_ok t c Hok Hwf) as Hf. destruct (finish_pending t c) as [t' c'].
+    destruct Hf as [F1 F2]. cbn [fst]. split; [exact F1|]. rewrite F2, HVP, HBs. reflexivity.
+  Qed.
+
+  Lemma Bs_length t c : wf t c -> length (Bs t c) <= length (contents t).
+  Proof.
+    unfold wf, Bs. destruct (c_pos c) as [[j i]|]; [|cbn; lia]. intros (Hj & _).
+    rewrite (view t j Hj), !app_length, skipn_length. lia.
+  Qed.
+
+  Lemma step_fwd efuel : 2 <= efuel -> forall fuel t c st, fwd_live t c st -> length (x_mid st) < fuel ->
+    let '(o, x') := extract_step fuel efuel p (live_state t c None) DNext in
+    let '(o', st') := ext_next p st in
+    o = o' /\
+    match o with
+    | Some _ => exists t' c', x' = RangeMut.mk_xstate (live_state t' c' None) false /\ fwd_live t' c' st'
+    | None => x_closed x' = true /\ ok (rg_tree (x_range x')) /\ contents (rg_tree (x_range x')) = ext_finish st' /\ x_mid st' = []
+    end.
+  Proof.
+    intros Hef. induction fuel as [|f IH]; intros t c st Hl Hlen; [lia|].
+    cbn [RangeMut.extract_step]. unfold RangeMut.range_peek.
+    pose proof (settle_live efuel t c st Hef Hl) as Hs.
+    destruct (settle' efuel (live_state t c None) DNext) as [b r].
+    destruct Hs as (t1 & c1 & Hl1 & [(-> & -> & e & rest & Em & Ecur & Hent)|(-> & -> & Em)]).
+    - (* an entry of the window *)
+      cbn [RangeMut.live_cursor RangeMut.end_of live_state rg_front rg_tree]. rewrite Ecur. destruct e as [k v].
+      destruct (entry_exists t1 c1 Hent) as (j & i & e' & Epos & En & Ecur'). rewrite Ecur in Ecur'. inversion Ecur'; subst e'.
+      destruct Hl1 as (Hok1 & Hwf1 & HVP1 & HBs1 & Hmid1 & Hpost1).
+      unfold ext_next. rewrite Em. cbn [take_while drop_while fst snd].
+      destruct (p k v) eqn:Ep; cbn [negb].
+      + (* yielded *)
+        fold (live_state t1 c1 (Some DNext)). rewrite settled_remove, Ecur. split; [reflexivity|].
+        exists t1, (cursor_remove c1 DNext true). split; [reflexivity|].
+        destruct (remove_ok t1 c1 j i (k, v) true Hwf1 Epos En) as (R1 & R2 & R3).
+        unfold fwd_live. cbn [x_pre x_mid x_post]. rewrite app_nil_r.
+        refine (conj Hok1 (conj R1 (conj _ (conj _ (conj _ Hpost1))))).
+        * now rewrite R2.
+        * rewrite HBs1, Em in R3. cbn [app] in R3. now inversion R3.
+        * rewrite Em in Hmid1. now inversion Hmid1.
+      + (* rejected: step over it *)
+        fold (live_state t1 c1 (Some DNext)). rewrite settled_advance.
+        destruct (move_ok t1 c1 j i (k, v) Hwf1 Epos En) as (M1 & M2 & M3).
+        set (st2 := mk_ext (x_pre st ++ [(k, v)]) rest (x_post st)).
+        assert (Hl2 : fwd_live t1 (cursor_move c1 DNext) st2).
+        { unfold fwd_live, st2. cbn [x_pre x_mid x_post].
+          refine (conj Hok1 (conj M1 (conj _ (conj _ (conj _ Hpost1))))).
+          - now rewrite M2, HVP1.
+          - rewrite HBs1, Em in M3. cbn [app] in M3. now inversion M3.
+          - rewrite Em in Hmid1. now inversion Hmid1. }
+        specialize (IH t1 (cursor_move c1 DNext) st2 Hl2 ltac:(unfold st2; cbn [x_mid]; rewrite Em in Hlen; cbn in Hlen; lia)).
+        destruct (extract_step f efuel p (live_state t1 (cursor_move c1 DNext) None) DNext) as [o x'].
+        unfold ext_next, st2 in IH. cbn [x_pre x_mid x_post] in IH.
+        destruct (drop_while (fun e : K * V => negb (p (fst e) (snd e))) rest) as [|e2 r2] eqn:Ed;
+          rewrite <- app_assoc in IH; cbn [app] in IH; exact IH.
+    - (* the window is exhausted: the iterator closes itself *)
+      unfold ext_next. rewrite Em. cbn [take_while drop_while].
+      split; [reflexivity|].
+      destruct (close_live t1 c1 None st Hl1) as (C1 & C2 & C3). split; [exact C1|]. split; [exact C2|]. split; [|reflexivity].
+      rewrite C3. unfold ext_finish. cbn [x_pre x_mid x_post]. now rewrite Em, app_nil_r.
+  Qed.
+
+  (* the first next() activates the front end at the lower bound *)
+  Definition c_start (t : T) : cstate := mk_cstate (seek_to t (pos_of_lower lo)) [] false None.
+
+  Lemma init_step fuel efuel t :
+    extract_step (S fuel) efuel p (RangeMut.range_new t lo hi) DNext = extract_step (S fuel) efuel p (live_state t (c_start t) None) DNext.
+  Proof. reflexivity. Qed.
+
+  Lemma take_drop_split (f : K * V -> bool) (X Y : list (K * V)) :
+    Forall (fun e => f e = true) X -> match Y with e :: _ => f e = false | [] => True end ->
+    take_while f (X ++ Y) = X /\ drop_while f (X ++ Y) = Y.
+  Proof.
+    intros HX HY. destruct Y as [|y Y'].
+    - rewrite app_nil_r. now apply take_while_all.
+    - now apply take_while_app_stop.
+  Qed.
+
+  Lemma init_live t : ok t -> fwd_live t (c_start t) (ext_begin cmp (contents t) lo hi).
+  Proof.
+    intros Hok. unfold c_start, Scan.seek_to, has_root.
+    destruct (leaves t) as [|l0 ls] eqn:EL.
+    - assert (Ec : contents t = []) by (unfold contents; now rewrite EL).
+      unfold fwd_live, wf, VP, Bs. cbn [c_pos c_removed c_run]. rewrite Ec. cbn. repeat split; auto.
+    - pose proof (seek_ok t (pos_of_lower lo) Hok ltac:(rewrite EL; discriminate)) as Hseek.
+      destruct (seek t (pos_of_lower lo)) as [j i]. destruct Hseek as (Hj & Hi & Hb & Ha).
+      set (X := pre t j ++ firstn i (leaf_at t j)) in *. set (Y := skipn i (leaf_at t j) ++ post t j) in *.
+      assert (Hc : contents t = X ++ Y).
+      { unfold X, Y. rewrite (view t j Hj). rewrite <- !app_assoc. f_equal. rewrite app_assoc, firstn_skipn. reflexivity. }
+      assert (HX : Forall (fun e => negb (above_lower cmp lo (fst e)) = true) X).
+      { eapply Forall_impl; [|exact Hb]. intros e He. now rewrite (pos_lower_below lo e He). }
+      assert (HY : match Y with e :: _ => negb (above_lower cmp lo (fst e)) = false | [] => True end).
+      { destruct Y as [|y Y']; [exact I|]. inversion Ha; subst. now rewrite (pos_lower_above lo y H1). }
+      destruct (take_drop_split _ X Y HX HY) as [T1 T2].
+      unfold ext_begin. rewrite Hc, T1, T2.
+      unfold fwd_live, wf, VP, Bs. cbn [c_pos c_removed c_run run_prefix x_pre x_mid x_post]. rewrite remove_indexes_nil.
+      split; [exact Hok|]. split; [repeat split; auto; constructor|]. split; [reflexivity|].
+      split; [fold Y; symmetry; apply take_drop_while|]. split; [apply take_while_Forall|].
+      destruct (drop_while (fun e : K * V => below_upper cmp hi (fst e)) Y) as [|q r] eqn:Ed; [exact I|].
+      now apply (drop_while_head _ _ _ _ Ed).
+  Qed.
+
+  (* n calls of next(), then the iterator is dropped *)
+  Variable fuelf : T -> nat.
+  Hypothesis fuelf_ok : forall t, length (contents t) < fuelf t.
+  Variable efuel : nat.
+  Hypothesis efuel_ok : 2 <= efuel.
+
+  Fixpoint nexts (n : nat) (x : xstate) : list (option (K * V)) * xstate :=
+    match n with
+    | O => ([], x)
+    | S n' =>
+        let '(o, x1) := extract_next (fuelf (rg_tree (x_range x))) efuel p x DNext in
+        let '(os, x2) := nexts n' x1 in (o :: os, x2)
+    end.
+
+  Definition rel (x : xstate) (st : @ext_state K V) : Prop :=
+    (x_closed x = true /\ ok (rg_tree (x_range x)) /\ contents (rg_tree (x_range x)) = ext_finish st /\ x_mid st = []) \/
+    (exists t c, x = RangeMut.mk_xstate (live_state t c None) false /\ fwd_live t c st) \/
+    (exists t, x = RangeMut.extract_new t lo hi /\ ok t /\ st = ext_begin cmp (contents t) lo hi).
+
+  Lemma mid_length t c st : fwd_live t c st -> length (x_mid st) < fuelf t.
+  Proof.
+    intros (_ & Hwf & _ & HBs & _). pose proof (Bs_length t c Hwf) as H. rewrite HBs, app_length in H.
+    pose proof (fuelf_ok t). lia.
+  Qed.
+
+  Lemma next_rel x st : rel x st ->
+    let '(o, x') := extract_next (fuelf (rg_tree (x_range x))) efuel p x DNext in
+    let '(o', st') := ext_next p st in o = o' /\ rel x' st'.
+  Proof.
+    intros [(Hc & Hok & Hcont & Hmid)|[(t & c & -> & Hl)|(t & -> & Hok & ->)]].
+    - unfold RangeMut.extract_next. rewrite Hc. unfold ext_next. rewrite Hmid. cbn [take_while drop_while].
+      split; [reflexivity|]. left. cbn [x_mid]. repeat split; auto.
+      rewrite Hcont. unfold ext_finish. cbn [x_pre x_mid x_post]. now rewrite Hmid, app_nil_r.
+    - unfold RangeMut.extract_next. cbn [x_closed x_range rg_tree live_state].
+      pose proof (step_fwd efuel efuel_ok (fuelf t) t c st Hl (mid_length t c st Hl)) as H.
+      destruct (extract_step (fuelf t) efuel p (live_state t c None) DNext) as [o x'].
+      destruct (ext_next p st) as [o' st']. destruct H as [E H]. split; [exact E|].
+      destruct o as [e|].
+      + right. left. exact H.
+      + left. exact H.
+    - unfold RangeMut.extract_next, RangeMut.extract_new. cbn [x_closed x_range rg_tree RangeMut.range_new].
+      pose proof (init_live t Hok) as Hl.
+      pose proof (step_fwd efuel efuel_ok (fuelf t) t (c_start t) _ Hl (mid_length t _ _ Hl)) as H.
+      destruct (fuelf t) as [|f] eqn:Ef; [pose proof (fuelf_ok t); lia|].
+      change (RangeMut.mk_rstate t (EParked lo) (EParked hi) None) with (@RangeMut.range_new K V T t lo hi). rewrite init_step.
+      destruct (extract_step (S f) efuel p (live_state t (c_start t) None) DNext) as [o x'].
+      destruct (ext_next p (ext_begin cmp (contents t) lo hi)) as [o' st']. destruct H as [E H]. split; [exact E|].
+      destruct o as [e|].
+      + right. left. exact H.
+      + left. exact H.
+  Qed.
+
+  Lemma tree_rel x st : rel x st -> ok (extract_tree x) /\ contents (extract_tree x) = ext_finish st.
+  Proof.
+    intros [(Hc & Hok & Hcont & _)|[(t & c & -> & Hl)|(t & -> & Hok & ->)]].
+    - unfold RangeMut.extract_tree, RangeMut.extract_close. rewrite Hc. auto.
+    - unfold RangeMut.extract_tree. destruct (close_live t c None st Hl) as (_ & C2 & C3). auto.
+    - unfold RangeMut.extract_tree, RangeMut.extract_close, RangeMut.extract_new. cbn [x_closed x_range].
+      unfold RangeMut.range_close, RangeMut.flush_end, RangeMut.range_new. cbn [RangeMut.end_of rg_front rg_back rg_tree].
+      split; [exact Hok|]. symmetry. apply ext_begin_finish.
+  Qed.
+
+  Theorem extract_forward_ok t n : ok t ->
+    let '(os, x) := nexts n (RangeMut.extract_new t lo hi) in
+    let '(os', st) := ext_run p (repeat true n) (ext_begin cmp (contents t) lo hi) in
+    os = os' /\ ok (extract_tree x) /\ contents (extract_tree x) = ext_finish st.
+  Proof.
+    intros Hok.
+    assert (H : forall m x st, rel x st ->
+              let '(os, x') := nexts m x in let '(os', st') := ext_run p (repeat true m) st in os = os' /\ rel x' st').
+    { clear t Hok n. induction m as [|m IH]; intros x st Hr.
+      - cbn. split; [reflexivity|exact Hr].
+      - cbn [nexts repeat ext_run]. pose proof (next_rel x st Hr) as Hn.
+        destruct (extract_next (fuelf (rg_tree (x_range x))) efuel p x DNext) as [o x1].
+        destruct (ext_next p st) as [o' st1]. destruct Hn as [E Hr1]. subst o'.
+        specialize (IH x1 st1 Hr1). destruct (nexts m x1) as [os x2]. destruct (ext_run p (repeat true m) st1) as [os' st2].
+        destruct IH as [E2 Hr2]. subst os'. split; [reflexivity|exact Hr2]. }
+    specialize (H n (RangeMut.extract_new t lo hi) (ext_begin cmp (contents t) lo hi)
+                  (or_intror (or_intror (ex_intro _ t (conj eq_refl (conj Hok eq_refl)))))).
+    destruct (nexts n (RangeMut.extract_new t lo hi)) as [os x]. destruct (ext_run p (repeat true n) _) as [os' st].
+    destruct H as [E Hr]. split; [exact E|]. now apply tree_rel.
+  Qed.
+  End ExtractForward.
 End ScanP.
